@@ -25,6 +25,7 @@ class Module:
         self.assigns = {}  # module level NAME = <expr>
         self.imports = {}  # local name -> (module, name)
         self._index(self.tree.body, "")
+        self.mutated_names, self.mutated_attrs = _mutation_sites(self.tree)
 
     def _index(self, body, prefix):
         for node in body:
@@ -72,6 +73,45 @@ class Module:
             elif isinstance(b, ast.Attribute):
                 out.append(b.attr)
         return out
+
+
+_MUTATORS = {"append", "extend", "insert", "pop", "remove", "clear", "update", "setdefault", "add", "discard", "popitem", "sort", "reverse"}
+
+
+def _mutation_sites(tree):
+    """names / attribute names whose container value is mutated in place somewhere inside a function of the module:
+    `NAME[k] = v`, `del NAME[k]`, `NAME.append(..)`, ... and the same through an attribute (`obj.ATTR[k] = v`).  A module-level or
+    class-level mutable literal that is mutated by functions is state shared by all calls: a function that reads it has a result
+    that depends on earlier calls, which the per-function contracts here cannot speak about (reported as undecided, never proved)."""
+    names, attrs = set(), set()
+
+    def note(target):
+        if isinstance(target, ast.Name):
+            names.add(target.id)
+        elif isinstance(target, ast.Attribute):
+            attrs.add(target.attr)
+
+    for fn in ast.walk(tree):
+        if not isinstance(fn, (ast.FunctionDef, ast.Lambda)):
+            continue
+        local_stores = {t.id for n in ast.walk(fn) for t in ([n] if isinstance(n, ast.Name) and isinstance(n.ctx, ast.Store) else [])}
+        local_stores |= {a.arg for a in getattr(fn.args, "args", [])} | {a.arg for a in getattr(fn.args, "kwonlyargs", [])}
+        globals_ = {g for n in ast.walk(fn) if isinstance(n, ast.Global) for g in n.names}
+        for n in ast.walk(fn):
+            if isinstance(n, ast.Subscript) and isinstance(n.ctx, (ast.Store, ast.Del)):
+                if isinstance(n.value, ast.Name) and (n.value.id not in local_stores or n.value.id in globals_):
+                    note(n.value)
+                elif isinstance(n.value, ast.Attribute):
+                    note(n.value)
+            elif isinstance(n, ast.Call) and isinstance(n.func, ast.Attribute) and n.func.attr in _MUTATORS:
+                v = n.func.value
+                if isinstance(v, ast.Name) and (v.id not in local_stores or v.id in globals_):
+                    note(v)
+                elif isinstance(v, ast.Attribute):
+                    note(v)
+            elif isinstance(n, ast.Name) and isinstance(n.ctx, ast.Store) and n.id in globals_:
+                names.add(n.id)
+    return names, attrs
 
 
 _cache = {}
